@@ -348,7 +348,7 @@ def run(R):
             if i % R.nshards == R.shard:
                 one_message(R, L, msg)
         R.count('boundary_messages', len(msgs) // R.nshards)
-        for i in range((150 if quick else 80000) // R.nshards + 1):
+        for i in range((1500 if quick else 80000) // R.nshards + 1):
             msg = {'info': g_info(rng), 'init': g_state_init(rng) if rng.random() < 0.5 else None,
                    'body': g_cell(rng, rng.choice([0, 1, 32, 300, 700, 1023, rng.randrange(1024)]), rng.randrange(5))}
             one_message(R, L, msg)
@@ -367,7 +367,7 @@ def standalone(R, L, rng, quick):
     wal = importlib.import_module('pytoniq_core.tlb.custom.wallet')
     nft = importlib.import_module('pytoniq_core.tlb.custom.nft')
     utl = importlib.import_module('pytoniq_core.tlb.utils')
-    n = 40 if quick else 6000
+    n = 200 if quick else 6000
 
     def same_cell(name, libcell_fn, want, W):
         st, c = mon.call(libcell_fn)
